@@ -650,6 +650,28 @@ void run_inplace(Ctx& c, const Options& opt) {
           for (auto& e : t) { ++checks; if (tau.at(S.items[static_cast<size_t>(e.k)].uid) != tau.at(S.items[static_cast<size_t>(e.v)].uid)) c.fail("C12:equated-pair-two-survivors", "equated pair maps to two constituents | " + ctx); }
           cls = std::string("equate-accepted") + (like ? "-like" : "-unlike") + (V0.allVerified() ? "-correct" : "-incorrect") + (R.allVerified() ? ">correct" : ">incorrect") + (tr->size() > t.size() ? "+dups" : "");
           c.rep.count("nontrivial");
+          // a SECOND equation on the same object (the first two constituents of one kind that are left): the translation it returns
+          // speaks about THIS call's operand (= R) only - no keys that are not constituents of R, every image in the new result
+          if (t.size() == 1 && flip == 0) {
+            const CView* a = nullptr; const CView* b = nullptr;
+            for (size_t i = 0; i < R.items.size() && b == nullptr; ++i) for (size_t j = i + 1; j < R.items.size(); ++j) if (R.items[i].type == R.items[j].type) { a = &R.items[i]; b = &R.items[j]; break; }
+            if (a != nullptr && b != nullptr) {
+              EquationOptions eq2; eq2.Insert(a->uid, b->uid, Equation{ static_cast<Equation::Mode>(1), std::string{} });
+              std::optional<EntityTranslation> tr2;
+              if (guarded(c, "C12", "Equate(second)", [&] { tr2 = G->Ops().Equate(eq2); }) && tr2.has_value()) {
+                const View R2 = snapshot(*G);
+                std::map<EntityUID, EntityUID> tau2 = toMap(*tr2);
+                const std::string ctx2 = "second equation " + a->alias + ">" + b->alias + " on " + show(R) + " | result " + show(R2) + " tr=" + showMap(tau2);
+                for (auto& [k2, v2] : tau2) {
+                  checks += 2;
+                  if (R.find(k2) == nullptr) c.fail("C12:translation-key-not-in-operand", "the returned translation has a key that is not a constituent of the schema the equation was applied to | " + ctx2);
+                  if (R2.find(v2) == nullptr) c.fail("C12:translation-image-missing", "the returned translation maps to a constituent that does not exist in the result | " + ctx2);
+                }
+                ++checks; if (!tau2.count(a->uid) && !tau2.count(b->uid)) c.fail("C12:equated-pair-not-translated", "neither side of the equated pair is in the returned translation | " + ctx2);
+                c.rep.count("second_equations");
+              }
+            }
+          }
         }
         c.rep.count("evaluations"); c.rep.count("checks", static_cast<uint64_t>(checks)); c.rep.outcome(cls);
         if (c.idx % 1999 == 1) c.rep.sample(desc + " => " + cls);
